@@ -33,6 +33,8 @@ CLAIMS = {
          'partial: the implementation computes in f32; closeness is measured within the stated tolerance, not proved; the reference uses fixed point with 2^-16 ns resolution; zero-length response times are outside the property and switch the monitor off for the rest of the history'),
  'C18': ('Theorems on the byte-level decoder model for every buffer and whatever the typed decoders do: validation success implies the same result without validation; with the ordering rule disabled every wire attribute is returned and the default result is the sub-list selected by the admission rule, both succeed together without validation; no context = default context; unknown-attribute data cannot change which attributes are returned. Tied to the code by the wire suite (17 decoder configurations per buffer, pairwise monitor) and the filter suite.',
          'unknown-data payload equality is checked on the implementation by the harness (value level)'),
+ 'C19': ('Theorems on a reference-counted heap model of the Arc-backed mutable value types: with copy-on-write every operation of every well-formed script over {new, clone, add, read} returns what value semantics returns and never panics (refinement, any script length); witness that the get_mut().unwrap() variant panics. Tied to the code by 8,000 (quick) / 200,000 (thorough) clone scripts on PasswordAlgorithms and UnknownAttributes and by sweeps of the public constructors / accessors / conversions under catch_unwind (all u16 / u8 domains exhaustively, ~900 strings).',
+         'partial: Arc is a hand-written model; the API sweeps are an implementation-side no-panic oracle (finite domains exhaustive, strings sampled); per-function no-panic theorems exist for the typed decoders (attribute-value model) only'),
  'C16': ('Theorems: any two chunkings of a stream give the same packets and first error; a concatenation of well-formed packets yields exactly those packets; every decode() call outcome (packet, consumed, missing, error kind and consumed) equals the unchunked reading; no call panics; bytes are conserved; missing count exact. Tied to the code by the reasm suite.', ''),
  'C17': ('Trace monitor: an error return from on_buffer_recv produces no events and leaves the hook snapshot (outstanding ids, pending timeouts, credential state) unchanged except for at most one marker on unreliable transport; exact model agreement of the continuation.', ''),
 }
